@@ -55,7 +55,7 @@ value event_scalar(runtime& rt, value::cref right) { return value((float)verif_e
 
 extern "C" {
 enum { OPS_GENERIC = 1, OPS_LOGIC = 2, OPS_MATH = 4, OPS_STRING = 8, OPS_HASHMAP = 16, OPS_NAMESPACE = 32, OPS_SQFVM = 64, OPS_CONFIG = 128,
-       OPS_DIAG = 256, OPS_TEXT = 512, OPS_OBJECT = 1024, OPS_GROUP = 2048, OPS_MARKERS = 4096, OPS_OSSPECIFIC = 8192 };
+       OPS_DIAG = 256, OPS_TEXT = 512, OPS_OBJECT = 1024, OPS_GROUP = 2048, OPS_MARKERS = 4096, OPS_OSSPECIFIC = 8192, OPS_DUMMY = 16384 };
 
 void* w_vm_new(int ops, long max_runtime_ms, int enable_classname_check)
 {
@@ -88,6 +88,10 @@ void* w_vm_new(int ops, long max_runtime_ms, int enable_classname_check)
     if (ops & OPS_GROUP) sqf::operators::ops_group(*v->rt);
     if (ops & OPS_MARKERS) sqf::operators::ops_markers(*v->rt);
     if (ops & OPS_OSSPECIFIC) sqf::operators::ops_osspecific(*v->rt);
+#endif
+#ifdef W_VM_DUMMY_OPS
+    // registered last, as sqf::operators::ops() does
+    if (ops & OPS_DUMMY) { sqf::operators::ops_dummy_nular(*v->rt); sqf::operators::ops_dummy_unary(*v->rt); sqf::operators::ops_dummy_binary(*v->rt); }
 #endif
     // harness operators
     using namespace sqf::runtime::sqfop;
